@@ -27,7 +27,7 @@ structure DState where
   slots : List Nat
   classes : List Nat
 
-def DState.init : DState := ⟨Cfg.asFound, Node.init (newBackend Cfg.asFound), Node.init (legacyBackendOf false), [], [], [], []⟩
+def DState.init : DState := ⟨Cfg.asFound, Node.init (newBackend Cfg.asFound), Node.init (legacyBackendOf false false), [], [], [], []⟩
 
 def hexList (ws : List String) : Option (List Nat) := ws.mapM hexToNat?
 
@@ -138,6 +138,10 @@ def step (s : DState) (line : String) : DState × String :=
     if b == "0" then ({ s with cfg := { s.cfg with migValFix := false } }, "ok")
     else if b == "1" then ({ s with cfg := { s.cfg with migValFix := true } }, "ok")
     else (s, "bad-op")
+  | ["cfg", "dupdeclfix", b] =>
+    if b == "0" then ({ s with cfg := { s.cfg with dupDeclFix := false } }, "ok")
+    else if b == "1" then ({ s with cfg := { s.cfg with dupDeclFix := true } }, "ok")
+    else (s, "bad-op")
   | ["cfg", "sysprobefix", b] =>
     if b == "0" then ({ s with cfg := { s.cfg with sysProbeFix := false } }, "ok")
     else if b == "1" then ({ s with cfg := { s.cfg with sysProbeFix := true } }, "ok")
@@ -158,7 +162,7 @@ def step (s : DState) (line : String) : DState × String :=
       let (nw, a) := match s.nw.store (newBackend s.cfg) id d with
         | .ok n => (n, "ok")
         | .error e => (s.nw, "err:" ++ errName e)
-      let (lg, b) := match s.lg.store (legacyBackendOf s.cfg.migValFix) id d with
+      let (lg, b) := match s.lg.store (legacyBackendOf s.cfg.migValFix s.cfg.dupDeclFix) id d with
         | .ok n => (n, "ok")
         | .error e => (s.lg, "err:" ++ errName e)
       ({ s with nw := nw, lg := lg, chain := d :: s.chain },
@@ -173,7 +177,7 @@ def step (s : DState) (line : String) : DState × String :=
       let a := match s.nw.store (newBackend s.cfg) id d with
         | .ok _ => "ok"
         | .error e => "err:" ++ errName e
-      let b := match s.lg.store (legacyBackendOf s.cfg.migValFix) id d with
+      let b := match s.lg.store (legacyBackendOf s.cfg.migValFix s.cfg.dupDeclFix) id d with
         | .ok _ => "ok"
         | .error e => "err:" ++ errName e
       (s, "new=" ++ a ++ " legacy=" ++ b ++ (if d.wfb then "" else " not-wf"))
@@ -182,7 +186,7 @@ def step (s : DState) (line : String) : DState × String :=
     let a := match s.nw.revert (newBackend s.cfg) with
       | .ok _ => "ok"
       | .error e => "err:" ++ errName e
-    let b := match s.lg.revert (legacyBackendOf s.cfg.migValFix) with
+    let b := match s.lg.revert (legacyBackendOf s.cfg.migValFix s.cfg.dupDeclFix) with
       | .ok _ => "ok"
       | .error e => "err:" ++ errName e
     (s, "new=" ++ a ++ " legacy=" ++ b)
@@ -190,7 +194,7 @@ def step (s : DState) (line : String) : DState × String :=
     let (nw, a) := match s.nw.revert (newBackend s.cfg) with
       | .ok n => (n, "ok")
       | .error e => (s.nw, "err:" ++ errName e)
-    let (lg, b) := match s.lg.revert (legacyBackendOf s.cfg.migValFix) with
+    let (lg, b) := match s.lg.revert (legacyBackendOf s.cfg.migValFix s.cfg.dupDeclFix) with
       | .ok n => (n, "ok")
       | .error e => (s.lg, "err:" ++ errName e)
     ({ s with nw := nw, lg := lg, chain := s.chain.drop 1 }, "new=" ++ a ++ " legacy=" ++ b)
@@ -199,7 +203,7 @@ def step (s : DState) (line : String) : DState × String :=
     | none => (s, "bad-op")
     | some v =>
       if m == "new" then (s, dumpNode s (newBackend s.cfg) s.nw v)
-      else if m == "legacy" then (s, dumpNode s (legacyBackendOf s.cfg.migValFix) s.lg v)
+      else if m == "legacy" then (s, dumpNode s (legacyBackendOf s.cfg.migValFix s.cfg.dupDeclFix) s.lg v)
       else if m == "abs" then
         match v with
         | .num k => (s, dumpAbs s k)
